@@ -43,3 +43,9 @@ Definition fn_entry_ok (e : fnentry) : bool :=
   String.eqb (fe_qual e) "std" && fe_forwards_all e.
 Definition fn_names (t : list fnentry) : list string := map fe_name t.
 Definition expected_fn_names : list string := ["abs"; "floor"; "ceil"; "sin"; "cos"; "tan"; "asin"; "acos"; "atan"].
+
+(* get_arity overloads (utils.h) *)
+Inductive aform := FN | FN1 | FCallOpMinus1 | FUnknown.   (* sizeof...(Arguments) | ... + 1 | arity(&T::operator()) - 1 *)
+Record arity_entry := { ar_kind : string; ar_quals : string; ar_formula : aform }.
+Definition aform_eqb (a b : aform) : bool :=
+  match a, b with FN, FN | FN1, FN1 | FCallOpMinus1, FCallOpMinus1 => true | _, _ => false end.
